@@ -82,47 +82,8 @@ pub open spec fn strip_root(p: Comps) -> Comps { if is_abs(p) { p.skip(1) } else
 pub open spec fn strip_lead(p: Comps) -> Comps { if p.len() > 0 && (p[0] == Component::RootDir || p[0] == Component::CurDir) { p.skip(1) } else { p } }
 pub open spec fn spec_mash(d: Comps, p: Comps) -> Comps { collect_spec(Seq::empty(), collect_spec(d, strip_root(p))) }
 
-pub proof fn lemma_collect_snoc(acc: Comps, s: Comps, c: Component)
-    ensures collect_spec(acc, s.push(c)) == push_spec(collect_spec(acc, s), c)
-    decreases s.len()
-{
-    if s.len() == 0 {
-        assert(s.push(c).skip(1) =~= Seq::<Component>::empty());
-        assert(collect_spec(push_spec(acc, c), Seq::<Component>::empty()) == push_spec(acc, c));
-    } else {
-        assert(s.push(c).skip(1) =~= s.skip(1).push(c));
-        lemma_collect_snoc(push_spec(acc, s[0]), s.skip(1), c);
-    }
-}
 //@ obligation lemma_collect_snoc props=C15
-// pushing components that are neither RootDir nor CurDir appends them
-pub proof fn lemma_collect_plain(acc: Comps, s: Comps)
-    requires forall|i: int| 0 <= i < s.len() ==> s[i] != Component::RootDir && (s[i] != Component::CurDir || (i == 0 && acc.len() == 0))
-    ensures collect_spec(acc, s) == acc + s
-    decreases s.len()
-{
-    if s.len() == 0 { assert(acc + s =~= acc); } else {
-        let a2 = push_spec(acc, s[0]);
-        assert(a2 == acc.push(s[0]));
-        assert forall|i: int| 0 <= i < s.skip(1).len() implies s.skip(1)[i] != Component::RootDir && (s.skip(1)[i] != Component::CurDir || (i == 0 && a2.len() == 0)) by { assert(s.skip(1)[i] == s[i + 1]); }
-        lemma_collect_plain(a2, s.skip(1));
-        assert(a2 + s.skip(1) =~= acc + s);
-    }
-}
 //@ obligation lemma_collect_plain props=C15
-// re-collecting a component sequence std produced gives the same sequence
-pub proof fn lemma_collect_std(s: Comps)
-    requires std_comps(s)
-    ensures collect_spec(Seq::empty(), s) == s
-{
-    if s.len() > 0 {
-        let a2 = push_spec(Seq::empty(), s[0]);
-        assert(a2 =~= seq![s[0]]);
-        assert forall|i: int| 0 <= i < s.skip(1).len() implies s.skip(1)[i] != Component::RootDir && (s.skip(1)[i] != Component::CurDir || (i == 0 && a2.len() == 0)) by { assert(s.skip(1)[i] == s[i + 1]); }
-        lemma_collect_plain(a2, s.skip(1));
-        assert(a2 + s.skip(1) =~= s);
-    }
-}
 //@ obligation lemma_collect_std props=C15
 // the containment law: for a non-empty dir the result is dir followed by base without its leading separator / dot
 pub proof fn lemma_mash_contains_dir(d: Comps, p: Comps)
